@@ -528,6 +528,10 @@ func jsonGrammarSection(x *h.X) {
 			{"value in URL-safe base64 without padding", strings.NewReplacer("+", "-", "/", "_", "=", "").Replace(t)},
 			{"value with invalid base64", strings.Replace(t, `"value":"`, `"value":"*`, 1)},
 			{"invalid UTF-8 in type url", strings.Replace(t, `"typeUrl":"`, "\"typeUrl\":\"\xff", 1)},
+			// documents made of WHITESPACE only, and the valid document inside whitespace (rejected with an error or
+			// read as the keyset: never a panic)
+			{"one space", " "}, {"newline", "\n"}, {"CRLF", "\r\n"}, {"tab", "\t"}, {"spaces and newlines", " \n \n"}, {"NUL byte", "\x00"}, {"BOM only", "\xef\xbb\xbf"},
+			{"leading whitespace", " \n\t" + t}, {"trailing whitespace", t + " \r\n"}, {"BOM + document", "\xef\xbb\xbf" + t}, {"document twice", t + t}, {"document + garbage", t + "x"},
 		} {
 			run(d.text, "", d.desc)
 		}
